@@ -30,7 +30,7 @@ fn oracle(s: &[u8]) -> Option<Vec<u8>> {
 }
 fn main() {
     std::panic::set_hook(Box::new(|_| {}));
-    let alphabet = ['A', 'Q', 'g', 'w', '/', '+', '9', '=', ' ', '\n', '-', '\u{e9}'];
+    let alphabet = ['A', 'Q', 'g', 'w', '/', '+', '=', ' ', '\n', '\u{b}', '\u{a0}', '\u{e9}'];   // VT and NBSP: white space for Unicode, not for YAML / ASCII
     let max_len = 6usize;
     println!("BOUND all strings over {:?} up to length {}, plus the canonical encodings of all byte strings of length <= 2 and samples of length 3..8, each also with one character altered", alphabet, max_len);
     let mut all: Vec<String> = vec![];
